@@ -296,6 +296,22 @@ pub fn gen_text(rng: &mut Rng, ascii_only: bool, long_ok: bool) -> String {
         }
         return s;
     }
+    if rng.chance(1, 12) {
+        // values with a structure of their own, which a "helpful" parser may normalise:
+        // dates and times that are not zero-padded, numbers with signs, leading zeros,
+        // exponents or separators, versions, URLs, addresses, booleans, quoted text
+        return rng
+            .pick_str(&[
+                "2019-8-2 5:08:02 +0100", "2019-08-02 05:08:02 +0100", "02019-08-02 05:08:02 +0100", "12-08-2019 5:8:2 -0000", "2019-08-02T05:08:02Z",
+                "1970-01-01 00:00:00 +0000", "2024-02-30 25:61:61 +9999", "20240101", "Mon Jan  1 00:00:00 UTC 2024",
+                "007", "+7", "-0", "1e3", "0x10", "1_000", "1,000", "3.0", " 42", "42 ", "٤٢", "１２３", "9223372036854775808", "-9223372036854775809",
+                "1.0nb1", "v1.0", "1.0.0-rc1+build.5", "TRUE", "yes", "null", "None", "NaN",
+                "http://example.org/a b?x=1&y=%20#frag", "HTTPS://EXAMPLE.ORG/", "user@example.org", "<user@example.org>", "Name <user@example.org>",
+                "\"quoted\"", "'quoted'", "back\\slash", "a\\nb", "${PREFIX}/bin", "$(cmd)", "`cmd`", "%s %d %%", "{0} {}", "a;b|c&d",
+                "x86_64", "X86_64", "NetBSD", "netbsd", "devel/foo", "devel//foo/", "../../devel/foo", "devel/foo:opt",
+            ])
+            .to_string();
+    }
     let n = if long_ok && rng.chance(1, 40) {
         rng.urange(200, 4096)
     } else if rng.chance(1, 8) {
